@@ -49,6 +49,11 @@ class Report:
         """import obligations from contracts.summarize()"""
         for o in obligations:
             kind = o['kind']
+            if not o['ok'] and o.get('flagloop'):
+                from irlib import AnalysisBroken
+                self.defer_broken(AnalysisBroken('%s (%s: "%s" is not decided)' % (
+                    o['flagloop'], rule_prefix, str(o.get('name') or o.get('detail') or kind)[:160])))
+                continue
             if kind.startswith('bounds:') or kind == 'deref-null':
                 key = o['id'].split('|', 2)[2] if False else None
             fnname = o['function']
